@@ -78,8 +78,8 @@ def run(L, tier, only=None):
         if op != "Resolve" and (not only or op in only or "arms" in only):
             L.lemma("C08 VM arm " + op, arm_lemma(op))
     covered, not_covered = [], []
-    L.ex.path_budget = 1500 if tier == "quick" else 40000
-    L.lemma_time_budget = 12 if tier == "quick" else 600
+    L.ex.path_budget = 1500 if tier == "quick" else 20000
+    L.lemma_time_budget = 12 if tier == "quick" else 240
     for loader in LOADERS:
         try:
             wm = word_map(L.ex, loader)
